@@ -135,7 +135,16 @@ def r1(ctx):
 
 def r2(ctx):
     cv = ctx.func(HP + ".compute_votes")
-    aug = [n for n in walk_function(cv.node) if isinstance(n, ast.AugAssign) and isinstance(n.op, ast.Add) and u(n.target).startswith("votes[")]
+    def per_position_votes(v):
+        # votes[variant.position], or a local bound to it / to votes.setdefault(variant.position, {})
+        if u(v) == "votes[variant.position]":
+            return True
+        if isinstance(v, ast.Name):
+            d_ = util.single_def(cv.node, v.id)
+            return d_ is not None and (u(d_) == "votes[variant.position]" or (isinstance(d_, ast.Call) and u(d_.func) == "votes.setdefault" and d_.args and u(d_.args[0]) == "variant.position"))
+        return False
+
+    aug = [n for n in walk_function(cv.node) if isinstance(n, ast.AugAssign) and isinstance(n.op, ast.Add) and isinstance(n.target, ast.Subscript) and per_position_votes(n.target.value)]
     ok = len(aug) == 1
     key = None
     if ok:
@@ -158,10 +167,13 @@ def r2(ctx):
         ok = ok and u(a0.args[0].args[0]) == "pos" and u(a1.args[0].args[0]) == "pos"
     ctx.ob(cs.qual, "winner-to-haplotype-0-complement-to-1", ok, cs.loc(vote_apps[0]) if vote_apps else cs.loc(), "super-read 0 gets the winning id's allele, super-read 1 the complementary id's allele" if ok else "consensus does not put best_allele on super-read 0 and 1 - best_allele on super-read 1")
     bc = ctx.func(HP + ".best_candidate")
-    srt = [c for c in ctx.prog.calls_in(bc.node) if isinstance(c.func, ast.Attribute) and c.func.attr == "sort"]
-    ok = len(srt) == 1 and any(k.arg == "reverse" and isinstance(k.value, ast.Constant) and k.value.value is True for k in srt[0].keywords)
-    first = [n for n in walk_function(bc.node) if isinstance(n, ast.Assign) and u(n.value) == "lst[0]" and u(n.targets[0]).replace(" ", "") == "((phase_set,allele),score)"]
-    ok = ok and len(first) == 1
+    # ((phase_set, allele), score) = first entry of the candidates ordered by descending score (sorted(...) or list + .sort)
+    first = [n for n in walk_function(bc.node) if isinstance(n, ast.Assign) and isinstance(n.value, ast.Subscript) and isinstance(n.value.value, ast.Name) and isinstance(n.value.slice, ast.Constant) and n.value.slice.value == 0 and u(n.targets[0]).replace(" ", "") == "((phase_set,allele),score)"]
+    ok = len(first) == 1
+    if ok:
+        od = util.ordering_of(bc.node, first[0].value.value.id)
+        params_bc = util.params_of(bc.node)
+        ok = od is not None and od[2] is True and od[1] is not None and od[1].replace(" ", "") in ("_[-1]", "_[1]") and u(od[0]) == "%s.items()" % params_bc[0]
     rets = [n for n in walk_function(bc.node) if isinstance(n, ast.Return)]
     ok = ok and len(rets) == 1 and [u(e) for e in rets[0].value.elts][:2] == ["allele", "phase_set"]
     ctx.ob(bc.qual, "best-candidate-is-max-score", ok, bc.loc(), "best_candidate returns (allele id, phase set) of the highest score" if ok else "best_candidate does not return index 0 of a descending sort as (allele, phase_set, ...)")
